@@ -13,6 +13,8 @@ import (
 	"github.com/6tail/lunar-go/calendar"
 )
 
+var c10JieClassReported bool
+
 func init() {
 	modes["search-C10"] = searchC10
 }
@@ -158,16 +160,16 @@ func searchC10() {
 		// shape: a Jie instant inside the moment's slot, after the moment
 		if nj := l.GetNextJie(); nj != nil && c10SlotKey(nj.GetSolar(), sect) == key && c10Abs(nj.GetSolar()) > c10Abs(s) {
 			nJieInSlot++
-			kin := fmt.Sprintf("%d %s sect=%d", nj.GetSolar().GetYear(), nj.GetName(), sect)
-			if base != 1900 {
-				kin += fmt.Sprintf(" base=%d", base)
+			// KNOWN defect class, keyed by call site: the lookup verifies its candidate at the slot's even hour :00:00
+			// (or the Jie's own minute/second only when the candidate DAY is the Jie day and the hour equals the Jie hour),
+			// which for these moments lies on the other side of the Jie instant. One aggregated report per shard;
+			// the number of distinct (year, Jie, sect) cases is in STAT incomplete_jie_in_slot_distinct.
+			kin := fmt.Sprintf("%d %s sect=%d base=%d", nj.GetSolar().GetYear(), nj.GetName(), sect, base)
+			jieKeys[kin] = true
+			if !c10JieClassReported {
+				c10JieClassReported = true
+				ck.report("bazi-incomplete-jie-in-slot", "ListSolarFromBaZiBySectAndBaseYear:jie-instant-inside-slot-after-moment", "e.g. "+obs+"; "+nj.GetName()+" at "+nj.GetSolar().ToYmdHms(), "a moment in the same two-hour slot")
 			}
-			if !jieKeys[kin] {
-				jieKeys[kin] = true
-				// not capped: the set of affected Jie is meant to be enumerable (one line per Jie and sect)
-				ck.perKind["bazi-incomplete-jie-in-slot"] = 0
-			}
-			ck.report("bazi-incomplete-jie-in-slot", kin, obs+"; "+nj.GetName()+" at "+nj.GetSolar().ToYmdHms(), "a moment in the same two-hour slot")
 			return
 		}
 		// shape: the moment lies between Xiaohan and Lichun of the base year (its year pillar is that of base-1)
